@@ -148,6 +148,18 @@ fn main() {
         emit("name.BufRead.consume", named(&|u| { BufRead::consume(u, 1); }), "BufRead::consume".into());
         emit("name.Seek", named(&|u| { let _ = Seek::seek(u, SeekFrom::Start(0)); }), "Seek::seek".into());
     }
+    // ---- an earlier failed call (swallowed) does not change what provided methods do afterwards
+    {
+        let lm = log_of();
+        let l = lm.clone();
+        let mut m = Unimock::new(WriteMock::write.each_call(matching!(_)).answers_arc(Arc::new(move |_, buf: &[u8]| { push(&l, format!("write{:?}", buf)); Ok(buf.len().min(2)) })).at_least_times(0)).no_verify_in_drop();
+        let failed = std::panic::catch_unwind(std::panic::AssertUnwindSafe(|| { let _ = Write::flush(&mut m); })).is_err();     // flush is not scripted
+        let r = match std::panic::catch_unwind(std::panic::AssertUnwindSafe(|| res(Write::write_all(&mut m, b"abc")))) {
+            Ok(r) => r,
+            Err(p) => format!("panicked:{}", p.downcast_ref::<String>().cloned().unwrap_or_default().lines().next().unwrap_or("")),
+        };
+        emit("write_all.after-swallowed-failure", format!("{failed}|{r}|{}", dump(&lm)), "true|Ok(())|write[97, 98, 99];write[99]".to_string());
+    }
     for k in 0..n {
       let mut rng_iter = Rng(rng.next());
       let res_iter = std::panic::catch_unwind(std::panic::AssertUnwindSafe(|| {
